@@ -3,8 +3,14 @@
  *   f fn=<name> a=<bits>,<bits>,...            -> ok <bits>
  *   f2 fn=<g>,<f> a=<x>,<params...>            -> ok <bits of g(f(x,params),params)>   (round trips)
  *   sample fn=<name> seed=<n> k=<draws> a=...  -> ok <bits>,...   (fresh MT19937 generator, k successive samples)
+ *   unipos seed=<n> k=<draws>                  -> ok <bits>,...   (the deviates esl_rnd_UniformPositive yields)
+ *   mix fam=hxp    fn=<pdf|logpdf|cdf|logcdf|surv|logsurv|invcdf> x=<bits> mu=<bits> q=<list> l=<list>
+ *   mix fam=mixgev fn=<...> x=<bits> q=<list> mu=<list> l=<list> al=<list>   -> ok <bits>
+ *   mixsample fam=<hxp|mixgev> seed=<n> k=<draws> (same parameters)          -> ok <bits>,...
  */
 #include "hcommon.h"
+#include <signal.h>
+#include <unistd.h>
 #include "esl_random.h"
 #include "esl_stats.h"
 #include "esl_exponential.h"
@@ -15,6 +21,8 @@
 #include "esl_gamma.h"
 #include "esl_normal.h"
 #include "esl_lognormal.h"
+#include "esl_hyperexp.h"
+#include "esl_mixgev.h"
 
 typedef double (*f3_t)(double, double, double);
 typedef double (*f4_t)(double, double, double, double);
@@ -61,10 +69,47 @@ static double wrap_LogGamma(double x)             { double r = 0.0/0.0; esl_stat
 static double wrap_IncGammaP(double a, double x)  { double r = 0.0/0.0; esl_stats_IncompleteGamma(a, x, &r, NULL); return r; }
 static double wrap_IncGammaQ(double a, double x)  { double r = 0.0/0.0; esl_stats_IncompleteGamma(a, x, NULL, &r); return r; }
 
-static void h_case_begin(void) { }
-static void h_case_end(void) { }
+static ESL_HYPEREXP *HX; static ESL_MIXGEV *MG;
+static int build_mix(const char *fam)
+{
+  double q[16], m[16], l[16], al[16]; int K, k;
+  K = parse_bits_list(h_arg("q"), q, 16);
+  if (K < 1) return 0;
+  if (!strcmp(fam, "hxp")) {
+    if (parse_bits_list(h_arg("l"), l, 16) != K || parse_bits_list(h_arg("mu"), m, 16) != 1) return 0;
+    HX = esl_hyperexp_Create(K);
+    for (k = 0; k < K; k++) { HX->q[k] = q[k]; HX->lambda[k] = l[k]; }
+    HX->mu = m[0];
+    return 1;
+  }
+  if (!strcmp(fam, "mixgev")) {
+    if (parse_bits_list(h_arg("l"), l, 16) != K || parse_bits_list(h_arg("mu"), m, 16) != K || parse_bits_list(h_arg("al"), al, 16) != K) return 0;
+    MG = esl_mixgev_Create(K);
+    for (k = 0; k < K; k++) { MG->q[k] = q[k]; MG->mu[k] = m[k]; MG->lambda[k] = l[k]; MG->alpha[k] = al[k]; }
+    return 1;
+  }
+  return 0;
+}
+static void free_mix(void) { if (HX) esl_hyperexp_Destroy(HX); HX = NULL; if (MG) esl_mixgev_Destroy(MG); MG = NULL; }
 
+static void h_case_begin(void) { }
+static void h_case_end(void) { free_mix(); }
+
+/* every operation runs under a 3 s alarm: a non-terminating bracketing/bisection loop is answered "hang" at once
+ * instead of costing the engine's batch timeout */
+static sigjmp_buf h_jb;
+static void h_on_alarm(int sig) { (void) sig; siglongjmp(h_jb, 1); }
+static void h_op_inner(void);
 static void h_op(void)
+{
+  signal(SIGALRM, h_on_alarm);
+  if (sigsetjmp(h_jb, 1)) { free_mix(); h_out("hang"); return; }
+  alarm(3);
+  h_op_inner();
+  alarm(0);
+}
+
+static void h_op_inner(void)
 {
   const char *op = h_words[0], *fn = h_arg("fn");
   double a[8]; int n, i;
@@ -75,6 +120,31 @@ static void h_op(void)
     buf = malloc(17 * (size_t) k + 8); p = buf; p += sprintf(p, "ok ");
     for (j = 0; j < k; j++) p += sprintf(p, "%s%s", j ? "," : "", h_dbits(esl_rnd_UniformPositive(R)));
     h_out("%s", buf); free(buf); esl_randomness_Destroy(R);
+    return;
+  }
+  if (!strcmp(op, "mix") || !strcmp(op, "mixsample")) {
+    const char *fam = h_arg("fam"); double x = h_argbits("x"), r = 0.0/0.0; int ishx;
+    if (!fam || !build_mix(fam)) { h_out("bad-op"); return; }
+    ishx = (HX != NULL);
+    if (!strcmp(op, "mix") && fn) {
+      if      (!strcmp(fn, "pdf"))     r = ishx ? esl_hxp_pdf(x, HX)     : esl_mixgev_pdf(x, MG);
+      else if (!strcmp(fn, "logpdf"))  r = ishx ? esl_hxp_logpdf(x, HX)  : esl_mixgev_logpdf(x, MG);
+      else if (!strcmp(fn, "cdf"))     r = ishx ? esl_hxp_cdf(x, HX)     : esl_mixgev_cdf(x, MG);
+      else if (!strcmp(fn, "logcdf"))  r = ishx ? esl_hxp_logcdf(x, HX)  : esl_mixgev_logcdf(x, MG);
+      else if (!strcmp(fn, "surv"))    r = ishx ? esl_hxp_surv(x, HX)    : esl_mixgev_surv(x, MG);
+      else if (!strcmp(fn, "logsurv")) r = ishx ? esl_hxp_logsurv(x, HX) : esl_mixgev_logsurv(x, MG);
+      else if (!strcmp(fn, "invcdf"))  r = ishx ? esl_hxp_invcdf(x, HX)  : esl_mixgev_invcdf(x, MG);
+      else { free_mix(); h_out("bad-op"); return; }
+      if (h_exception_seen) h_out("exception %s", h_status(h_exception_seen)); else h_out("ok %s", h_dbits(r));
+    } else if (!strcmp(op, "mixsample")) {
+      uint32_t seed = (uint32_t) h_argu("seed", 1); int k = (int) h_argi("k", 1), j; ESL_RANDOMNESS *R; char *buf, *p;
+      if (seed == 0 || k < 1 || k > 4096) { free_mix(); h_out("bad-op"); return; }
+      R = esl_randomness_Create(seed);
+      buf = malloc(17 * (size_t) k + 8); p = buf; p += sprintf(p, "ok ");
+      for (j = 0; j < k; j++) p += sprintf(p, "%s%s", j ? "," : "", h_dbits(ishx ? esl_hxp_Sample(R, HX) : esl_mixgev_Sample(R, MG)));
+      h_out("%s", buf); free(buf); esl_randomness_Destroy(R);
+    } else h_out("bad-op");
+    free_mix();
     return;
   }
   if (!fn) { h_out("bad-op"); return; }
